@@ -237,6 +237,12 @@ class Runner:
             getattr(o, name)()
         elif name == 's_get':
             o.get(self.args(op)[0], lambda *a: None)
+        elif name == 's_getn':
+            o.getn(self.args(op)[0], n[0], lambda *a: None)
+        elif name == 'n_query':
+            o.query(lambda *a: None)
+        elif name == 'dump_tree':
+            o.dump_tree(bool(n[0]))
         elif name == 'free_default_group':
             s.free_default_group()
         elif name == 'reorder':
@@ -265,6 +271,22 @@ class Runner:
         elif name == 'b_fill':
             a = self.args(op)
             o.fill(a[0], a[1], a[2:])
+        elif name == 'b_get':
+            o.get(n[0], lambda *a: None)
+        elif name == 'b_getn':
+            o.getn(n[0], n[1], lambda *a: None)
+        elif name in ('b_sine1', 'b_cheby'):
+            getattr(o, name[2:])(self.args(op), bool(n[0]), bool(n[1]), bool(n[2]))
+        elif name == 'b_sine2':
+            a = self.args(op)
+            o.sine2(a[0::2], a[1::2], bool(n[0]), bool(n[1]), bool(n[2]))
+        elif name == 'b_sine3':
+            a = self.args(op)
+            o.sine3(a[0::3], a[1::3], a[2::3], bool(n[0]), bool(n[1]), bool(n[2]))
+        elif name == 'b_normalize':
+            o.normalize(self.args(op)[0], bool(n[0]))
+        elif name == 'b_copy':
+            o.copy_data(self.target(op), n[0], n[1], n[2])
         elif name == 'b_read':
             o.read(op['def'], n[0], n[1], n[2], bool(n[3]))
         elif name == 'b_cue':
